@@ -854,7 +854,7 @@ func runURL(id string, u urlCaseT, st *hx.Stats) string {
 
 // ---------------------------------------------------------------- main
 
-const urlOn = false
+const urlOn = true
 
 func main() {
 	a := hx.ParseArgs()
